@@ -49,7 +49,7 @@ def gen_grammar(r, big=False, imports=False):
         attrs = []
         nattr = r.range(1, 4) if ci == 0 else r.weighted([(0, 2), (1, 4), (2, 4), (3, 2)])
         for ai in range(nattr):
-            kind = r.weighted([("one", 4), ("many", 5), ("ref", 2), ("refs", 2), ("prim", 2), ("objtyped", 1)])
+            kind = r.weighted([("one", 4), ("many", 5), ("ref", 2), ("refs", 2), ("prim", 3), ("objtyped", 1)])
             if ci == 0 and ai == 0:
                 kind = "many"
             name = "f%d" % ai
@@ -66,7 +66,7 @@ def gen_grammar(r, big=False, imports=False):
             elif kind in ("ref", "refs"):
                 attrs.append({"name": name, "kind": kind, "type": r.choice(types), "kw": new_kw()})
             elif kind == "prim":
-                attrs.append({"name": name, "kind": "prim", "type": r.choice(["INT", "STRING", "W", "WW", "WWW"]), "kw": new_kw()})
+                attrs.append({"name": name, "kind": "prim", "type": r.choice(["INT", "STRING", "W", "WW", "WWW", "WW", "WWW"]), "kw": new_kw()})
             else:
                 t1, t2 = r.choice(commons[1:]), r.choice(commons[1:])
                 attrs.append({"name": name, "kind": "objtyped", "types": [t1, t2], "kws": [new_kw(), new_kw()]})
@@ -192,7 +192,7 @@ def gen_model(r, g, maxobjs, start=0, extern=(), fill=True):
                 n = max(n, lo)
                 o["attrs"][a["name"]] = [value(a["type"], depth + 1) for _ in range(n)]
             elif k == "prim":
-                if r.chance(0.6):
+                if r.chance(0.75):
                     o["attrs"][a["name"]] = prim(a["type"])
             elif k == "objtyped":
                 if room and r.chance(0.7):
